@@ -14,6 +14,7 @@ From Ark Require Import Proofs.TableProofs Proofs.MaskProofs Proofs.Hoare Proofs
 From Ark Require Import Proofs.StorageB_sb1 Proofs.StorageB_sb2 Proofs.StorageB_sb3 Proofs.StorageC.
 From Ark Require Import Proofs.LockWorld Proofs.ViewProofs Proofs.QueryProofs Proofs.CacheProofs Proofs.BatchOps.
 From Ark Require Import Proofs.BuildEquiv.
+From Ark Require Proofs.ResetShrinkProofs Proofs.ObsProofs.
 From RecordUpdate Require Import RecordSet.
 Import RecordSetNotations.
 From Coq Require Import Lia.
@@ -37,8 +38,9 @@ Definition compindex_ok (s : W) : Prop :=
 Definition Inv3 (s : W) (n : nat) : Prop :=
   Inv s n /\ tables_listed_all s /\ v_targets_zero s /\ compindex_ok s.
 
-(** In the core histories every archetype also has its table (creation of the table directly follows
-    the creation of the archetype and cannot fail in the relation-free tier). *)
+(** In the core histories every archetype also has its table (createArchetype, as repaired, creates the
+    table of an archetype without relation components together with the archetype; [bo_archs_tabled] is
+    [archs_tabled_norel] of WF.v in a relation-free world, see [inv4_archs_tabled] at the end). *)
 Definition Inv4 (s : W) (n : nat) : Prop := Inv3 s n /\ bo_archs_tabled s.
 
 (** ** Relation to the clauses of BatchOps and ViewProofs *)
@@ -326,8 +328,12 @@ Qed.
 
 (** ** Structure creation *)
 
-(** *** find_or_create_arch: the archetype is found, or appended without a table and entered in the index *)
-Lemma sd_foca_shape : forall s m aid s1, find_or_create_arch m s = Ok aid s1 ->
+(** *** find_or_create_arch: the archetype is found, or appended and entered in the index. The finders
+    are followed through the regrouped halves of [sa_finder_tail_bare]: first the archetype record
+    alone ([find_or_create_arch_bare]), then [get_or_create_table], which creates the table of a new
+    archetype (in the model, as in the repaired Go code, that table is created by createArchetype
+    itself; the reached state is the same). *)
+Lemma sd_foca_shape : forall s m aid s1, find_or_create_arch_bare m s = Ok aid s1 ->
   (s1 = s /\ exists a, nth_error (w_archs s) aid = Some a /\ a_mask a = m) \/
   (aid = length (w_archs s) /\
    exists a, w_archs s1 = w_archs s ++ [a] /\ a_mask a = m /\ a_tables a = [] /\
@@ -336,11 +342,11 @@ Lemma sd_foca_shape : forall s m aid s1, find_or_create_arch m s = Ok aid s1 ->
                                 (mk_to_list m (length (w_reg s))) (w_compindex s) /\
      w_centries s1 = w_centries s /\ w_cheap s1 = w_cheap s /\ w_filters s1 = w_filters s).
 Proof.
-  intros s m aid s1 H. unfold find_or_create_arch, bind, get in H. rewrite sa_find_arch_go in H.
+  intros s m aid s1 H. unfold find_or_create_arch_bare, bind, get in H. rewrite sa_find_arch_go in H.
   destruct (sa_find_go m (w_archs s) 0) as [i|] eqn:F.
   - unfold ret in H. inversion H; subst. left. split; [reflexivity|].
     apply sa_find_go_some in F. destruct F as (_ & a & Ha & Ma). rewrite Nat.sub_0_r in Ha. eauto.
-  - unfold create_archetype, bind, get, put, ret in H. inversion H; subst. right. split; [reflexivity|].
+  - unfold create_archetype_bare, bind, get, put, ret in H. inversion H; subst. right. split; [reflexivity|].
     eexists. cbn. repeat split.
 Qed.
 
@@ -350,7 +356,7 @@ Definition sd_X1 (s : W) (aid : nat) : Prop :=
   (sd_b = true -> forall i a, nth_error (w_archs s) i = Some a -> i <> aid -> a_tables a <> []).
 
 Lemma sd_foca_X : forall s m aid s1, WF s -> (forall j, mk_get m j = true -> j < length (w_reg s)) ->
-  sd_X s -> find_or_create_arch m s = Ok aid s1 -> sd_X1 s1 aid.
+  sd_X s -> find_or_create_arch_bare m s = Ok aid s1 -> sd_X1 s1 aid.
 Proof.
   intros s m aid s1 HW Hm (X1 & X2 & X3 & X4) H.
   destruct (sd_foca_shape _ _ _ _ H) as [(-> & _)|(-> & a & EA & Ma & Ta & ET & EC & _)].
@@ -471,10 +477,9 @@ Lemma sd_finder_tail_X : forall s m, St s -> sd_X s ->
   forall aid s1 tid s2, find_or_create_arch m s = Ok aid s1 -> get_or_create_table aid [] s1 = Ok tid s2 -> sd_X s2.
 Proof.
   intros s m HS HX Hm aid s1 tid s2 E1 E4.
-  destruct (find_or_create_arch_spec s m HS Hm) as (aid' & s1' & E1' & HS1 & _ & _ & _ & _ & a & Ha & _).
-  rewrite E1 in E1'. inversion E1'; subst aid' s1'.
-  eapply sd_goct_X; [exact HS1|exact Ha| |exact E4].
-  eapply sd_foca_X; [exact (proj1 HS)|exact Hm|exact HX|exact E1].
+  destruct (sa_finder_tail_bare s m aid s1 tid s2 HS Hm E1 E4) as (s0 & a & E0 & HS0 & Ha & _ & E40).
+  eapply sd_goct_X; [exact HS0|exact Ha| |exact E40].
+  eapply sd_foca_X; [exact (proj1 HS)|exact Hm|exact HX|exact E0].
 Qed.
 
 Lemma sd_init_X : forall c, sd_X (init_world c).
@@ -1850,9 +1855,8 @@ Qed.
 Lemma sd_C_tail : forall s m, St s -> sd_C s -> (forall j, mk_get m j = true -> j < length (w_reg s)) ->
   forall aid s1 tid s2, find_or_create_arch m s = Ok aid s1 -> get_or_create_table aid [] s1 = Ok tid s2 -> sd_C s2.
 Proof.
-  intros s m HS (ND & HC) Hm aid s1 tid s2 E1 E4.
-  destruct (find_or_create_arch_spec s m HS Hm) as (aid' & s1' & E1' & HS1 & _ & _ & _ & _ & a & Ha & _).
-  rewrite E1 in E1'. inversion E1'; subst aid' s1'.
+  intros s m HS (ND & HC) Hm aid s1' tid s2 E1' E4'.
+  destruct (sa_finder_tail_bare s m aid s1' tid s2 HS Hm E1' E4') as (s1 & a & E1 & HS1 & Ha & _ & E4).
   assert (C1 : sd_C s1).
   { destruct (sd_foca_shape _ _ _ _ E1) as [(-> & _)|(_ & a0 & EA & Ma & Ta & ET & EC & E7 & E8 & E9)]; [split; assumption|].
     unfold sd_C, k_cache_exact_tol. rewrite E7, E8, E9, EA. split; [exact ND|].
@@ -2357,8 +2361,43 @@ Example sd_world_reg_shape :
   map a_comps (w_archs sd_world_reg) = [[]; [0]; [0; 1]; [1]; [1; 2]; [0; 1; 2]; [2]].
 Proof. vm_compute. repeat split. Qed.
 
+(** ** Every archetype has its table: the clause of WF.v, and Reset
+
+    [Inv4] carries "every archetype has its table" ([bo_archs_tabled]; in a relation-free world this is
+    [archs_tabled_norel] of WF.v). Since the repair of createArchetype (the table of an archetype without
+    relation components is created together with the archetype) the clause is kept by every finder
+    whatever happens afterwards ([find_or_create_table*_tabled] of StorageA); here it is part of the
+    invariant of all three history classes. Consequence for Reset: conditions (A) "every archetype has a
+    table" and (B) "every non-empty table is listed" of [reset_empty_partial] (ResetShrinkProofs; C16)
+    hold in every reachable state, so Reset succeeds there given the two remaining conditions on the
+    filter registration (C) and the observer manager (D, here as [MInv]). *)
+Theorem inv4_archs_tabled : forall s n, Inv4 s n -> archs_tabled_norel s.
+Proof. intros s n (_ & HT). apply bo_archs_tabled_norel. exact HT. Qed.
+
+Theorem reachable_archs_tabled : forall c lines,
+  cfg_ok c -> Forall (reg_line (length (sc_kinds c))) lines -> length lines + 4 < Nat.pow 2 31 ->
+  archs_tabled_norel (run_core c lines).
+Proof. intros c lines Hc Hl Hb. destruct (reachable_inv6_reg c lines Hc Hl Hb) as (H4 & _). exact (inv4_archs_tabled _ _ H4). Qed.
+
+Theorem inv4_reset_empty : forall s n, Inv4 s n -> is_locked s = false ->
+  (* (C) *) (forall fi f, nth_error (w_filters s) fi = Some f -> f_cache f <> None ->
+               exists addr e, In addr (w_centries s) /\ nth_error (w_cheap s) addr = Some e /\ ce_filter e = fi) ->
+  (* (D) *) ObsProofs.MInv s ->
+  exists s', w_reset s = Ok tt s' /\ St s' /\ (forall e, live s' e = false) /\
+             pe (w_pool s') = [(0, max_u32); (1, max_u32)] /\ pavail (w_pool s') = 0 /\
+             w_centries s' = [] /\ (forall f, In f (w_filters s') -> f_cache f = None) /\
+             w_ototal s' = 0 /\ (forall evt, olist s' evt = [] \/ has_obs s' evt = false) /\
+             is_locked s' = false /\ Forall (fun b => b = false) (w_res s') /\
+             w_reg s' = w_reg s /\ w_cfg s' = w_cfg s /\ length (w_archs s') = length (w_archs s) /\
+             (forall tid t, nth_error (w_tables s') tid = Some t -> t_len t = 0).
+Proof.
+  intros s n (((HS & _) & HL & _ & _) & HT) Hlk HC HM.
+  apply (ResetShrinkProofs.reset_empty_partial_MInv s HS Hlk); [exact HT| |exact HC|exact HM].
+  intros tid t Ht _. destruct (HL tid t Ht) as (a & Ha & Hin). exists (t_arch t), a. auto.
+Qed.
+
 (** ** Assumption audit *)
-Definition sd_all := (tables_listed_all_listed, tables_listed_all_v, v_tables_listed_all,
+Definition sd_all := (inv4_archs_tabled, reachable_archs_tabled, inv4_reset_empty, tables_listed_all_listed, tables_listed_all_v, v_tables_listed_all,
   Inv3_init, Inv4_init, Inv5_init, step_inv3, step_inv4, reachable_inv3, reachable_inv4,
   step_inv3_ext, step_inv4_ext, step_inv5_ext, reachable_inv3_ext, reachable_inv4_ext, reachable_inv5_ext,
   preselection_same_archetypes, preselection_walk_all, preselection_complete, preselection_drain, preselection_count,
